@@ -1,39 +1,160 @@
 import ZCV.Model.Schemaless
 import ZCV.Lemmas.SubstExtra
 import ZCV.Props.C04
+import ZCV.Lemmas.RoundtripCanon
+import ZCV.Lemmas.RoundtripInv
+import ZCV.Lemmas.RoundtripExamples
+/-!
+C17 — schema-less configurations survive `str()` and re-reading.
+
+Vocabulary (`ZCV/Lemmas/RoundtripDefs.lean`, `RoundtripText.lean`, `RoundtripInv.lean`):
+* `linesOf text`: the lines `readline()` yields for the text;
+* `WF t imps`: the trees (with import lists) the loader can produce — top section without type and name, every
+  other section type a lower-case word not starting with `/`, names lower-case words, keys distinct words not
+  starting with `#`, `<`, `%`, each with at least one value, values without newline and without whitespace at
+  either end, imports distinct, non-empty and clean;
+* `canon t`: `t` with the keys of every section in `sorted()` order.  The model's `Sec` keeps the keys of a section
+  as an association list in insertion order, while `Section` is a `dict` whose order `str()` discards and `==` ignores:
+  the reload of `str(t)` is `canon t`, which is `t` as Python compares configurations (`Same t (canon t)`) and is
+  literally `t` when the keys of `t` are sorted (in particular for every tree that is itself a reload);
+* `EnvClean getenv`: every text a `$(NAME)` reference can paste in is non-empty, without newline and without
+  whitespace at either end.
+-/
 namespace ZCV.Props.C17
-open ZCV ZCV.Cfg ZCV.SubstSpec
+open ZCV ZCV.Cfg ZCV.SubstSpec ZCV.Roundtrip
 
 /-- printing a value (every `$` doubled) and reading it back through `$`-substitution gives the value back,
     whatever is or is not defined: the documented function maps `escDollar v` to `v` -/
 theorem C17_value_roundtrip_spec (defs env : Str → Option Str) (src v : Str) :
-    spec defs env src (escDollar v) = .ok v := by
-  induction v with
-  | nil => simp [escDollar, spec_nil]
-  | cons c t ih =>
-    by_cases hc : c = '$'
-    · subst hc
-      have : escDollar ('$' :: t) = '$' :: '$' :: escDollar t := by simp [escDollar]
-      rw [this, spec, ih]; rfl
-    · have : escDollar (c :: t) = c :: escDollar t := by simp [escDollar, hc]
-      rw [this, spec_lit _ _ _ _ _ hc, ih]; rfl
+    spec defs env src (escDollar v) = .ok v := value_roundtrip_spec defs env src v
 
 /-- the same for the model of the code (by C04): the text `str()` writes for a value re-reads as that value -/
 theorem C17_value_roundtrip (defs env : Str → Option Str) (v : Str) :
-    Subst.substitute defs env (escDollar v) = .ok v := by
-  have h := ZCV.Props.C04.C04_substitute_eq_spec defs env (escDollar v)
-  unfold substituteSpec at h
-  rw [C17_value_roundtrip_spec] at h
-  cases hs : Subst.substitute defs env (escDollar v) with
-  | ok r => rw [hs] at h; simp [Subst.conv] at h; rw [h]
-  | error e => rw [hs] at h; simp [Subst.conv] at h
+    Subst.substitute defs env (escDollar v) = .ok v := value_roundtrip defs env v
 
-/-- `%define` and `%include` are refused by the schema-less parser, never silently dropped -/
+/-- `%define` is refused by the schema-less parser, never silently dropped -/
 theorem C17_define_refused (fuel : Nat) (env : Env) (active : List Str) (url : Option Str) (line : Nat) (l arg : Str)
     (st : PS SL) (h : lineShape l = .define arg) :
     stepLine fuel env schemalessCtx active url line l st = .error (.internal "NotImplementedError") := by
   unfold stepLine
   rw [h]
   rfl
+
+/-- `%include` is refused as well: the line never succeeds (its argument fails to substitute, or the
+    schema-less context raises `NotImplementedError`) -/
+theorem C17_include_refused (fuel : Nat) (env : Env) (active : List Str) (url : Option Str) (line : Nat) (l arg : Str)
+    (st st' : PS SL) (h : lineShape l = .include_ arg) :
+    stepLine fuel env schemalessCtx active url line l st ≠ .ok st' := by
+  unfold stepLine
+  rw [h]
+  simp only [bind, Except.bind, schemalessCtx]
+  intro hc
+  split at hc
+  · cases hc
+  · simp at hc
+
+/-- **Round trip.**  For every well-formed schema-less configuration `t` with imports `imps` — in whatever
+    environment and under whatever URL the text is read again — loading the text `str()` prints succeeds and
+    yields the same imports and the same tree: same types, names, nesting and order of sections, same keys with
+    the same value lists in the same order, the keys of each section listed in `sorted()` order. -/
+theorem C17_roundtrip (getenv : Str → Option Str) (url : Option Str) (t : Sec) (imps : List Str) (h : WF t imps) :
+    slLoad getenv url (linesOf (slStr t imps)) = .ok (canon t, imps) :=
+  slLoad_slStr getenv url t imps h
+
+/-- the reloaded tree is the original as Python compares its parts: types and names equal, the key ↦ value-list
+    dictionaries equal (same pairs, in some order), sub-sections pairwise the same, in order -/
+theorem C17_reload_same (t : Sec) : Same t (canon t) := same_canon t
+
+/-- when the keys of every section are already in sorted order, the reload is literally the tree -/
+theorem C17_roundtrip_sorted (getenv : Str → Option Str) (url : Option Str) (t : Sec) (imps : List Str)
+    (h : WF t imps) (hs : sortedSec t) : slLoad getenv url (linesOf (slStr t imps)) = .ok (t, imps) := by
+  rw [C17_roundtrip getenv url t imps h, canon_of_sorted t hs]
+
+/-- **Print stability.**  Serialising the reload gives the identical text. -/
+theorem C17_print_stable (getenv : Str → Option Str) (url : Option Str) (t t' : Sec) (imps imps' : List Str)
+    (h : WF t imps) (hr : slLoad getenv url (linesOf (slStr t imps)) = .ok (t', imps')) :
+    slStr t' imps' = slStr t imps := by
+  rw [C17_roundtrip getenv url t imps h] at hr
+  simp only [Except.ok.injEq, Prod.mk.injEq] at hr
+  obtain ⟨rfl, rfl⟩ := hr
+  exact slStr_canon t imps h
+
+/-- a reload is a fixed point: it is well-formed, and printing and loading it again returns it literally -/
+theorem C17_reload_fixed_point (getenv : Str → Option Str) (url : Option Str) (t : Sec) (imps : List Str)
+    (h : WF t imps) :
+    WF (canon t) imps ∧ slLoad getenv url (linesOf (slStr (canon t) imps)) = .ok (canon t, imps) :=
+  ⟨WF_canon t imps h,
+   C17_roundtrip_sorted getenv url (canon t) imps (WF_canon t imps h) (sorted_canon_top t imps h)⟩
+
+/-- **What the loader produces.**  Whatever the schema-less loader returns for the lines of a file is well-formed,
+    provided the environment consulted by `$(NAME)` is clean (`EnvClean`; vacuous when no variable is set). -/
+theorem C17_loaded_is_wf (getenv : Str → Option Str) (henv : EnvClean getenv) (url : Option Str) (lines : List Str)
+    (hl : ∀ l ∈ lines, '\n' ∉ l) (t : Sec) (imps : List Str) (h : slLoad getenv url lines = .ok (t, imps)) :
+    WF t imps := slLoad_wf getenv henv url lines hl t imps h
+
+/-- **C17 for texts.**  For every text the schema-less loader accepts (clean environment), `str()` of the result
+    loads again — anywhere — to the same structure with the same imports, and serialising the reload gives the
+    identical text. -/
+theorem C17_accepted_text_roundtrip (getenv : Str → Option Str) (henv : EnvClean getenv) (url : Option Str)
+    (text : Str) (t : Sec) (imps : List Str) (h : slLoad getenv url (linesOf text) = .ok (t, imps))
+    (getenv' : Str → Option Str) (url' : Option Str) :
+    slLoad getenv' url' (linesOf (slStr t imps)) = .ok (canon t, imps) ∧ Same t (canon t) ∧
+      slStr (canon t) imps = slStr t imps := by
+  have hwf := C17_loaded_is_wf getenv henv url (linesOf text) (linesOf_no_nl text) t imps h
+  exact ⟨C17_roundtrip getenv' url' t imps hwf, same_canon t, slStr_canon t imps hwf⟩
+
+/-! ### the hypotheses are satisfiable, the conclusions are not trivial -/
+
+/-- imports with a `$`, a repeated key with an empty value and grammar characters, a section whose type and name
+    end in `/`, unsorted keys, nesting, a non-ASCII type -/
+def sample : Sec :=
+  .mk [] none [("k".toList, ["a$b".toList, [], "<x>".toList])]
+    [.mk "a/".toList (some "n/".toList) [("z".toList, ["1".toList]), ("b".toList, ["2".toList])] [.mk "c".toList none [] []],
+     .mk "é".toList none [] []]
+def sampleImps : List Str := ["p.q".toList, "r$".toList]
+
+example : WF sample sampleImps := by decide
+example : slStr sample sampleImps =
+    "%import p.q\n%import r$$\n\nk a$$b\nk \nk <x>\n\n<a/ n/ >\n  b 2\n  z 1\n\n  <c>\n  </c>\n</a/>\n\n<é>\n</é>\n".toList := by
+  decide
+example (getenv : Str → Option Str) (url : Option Str) :
+    slLoad getenv url (linesOf (slStr sample sampleImps)) = .ok (canon sample, sampleImps) :=
+  C17_roundtrip getenv url sample sampleImps (by decide)
+example : EnvClean (fun _ => none) := fun _ _ h => by cases h
+/-- an accepted text, as `C17_accepted_text_roundtrip` wants one -/
+example : slLoad (fun _ => none) none (linesOf "b 1\na 2\n".toList) = .ok (treeBA, []) := by
+  have : linesOf "b 1\na 2\n".toList = linesBA := by decide
+  rw [this]
+  exact load_BA _ _
+example : EnvClean (fun n => if n = "HOME".toList then some "/home/u".toList else none) := by
+  intro n v h
+  simp only at h
+  split at h
+  · cases h; decide
+  · cases h
+
+/-- **Key order is not part of the structure.**  The text `b 1 / a 2` loads to a tree whose association list reads
+    `b, a`; its `str()` is `a 2 / b 1`, which loads to the list `a, b`: a different `Sec` in the model, the same
+    configuration to Python (`Same`).  This is why the round trip is stated with `canon`. -/
+theorem C17_key_order_counterexample (getenv : Str → Option Str) (url : Option Str) :
+    slLoad getenv url ["b 1".toList, "a 2".toList] = .ok (treeBA, []) ∧
+    slLoad getenv url (linesOf (slStr treeBA [])) = .ok (canon treeBA, []) ∧
+    canon treeBA ≠ treeBA ∧ Same treeBA (canon treeBA) :=
+  ⟨load_BA getenv url, C17_roundtrip getenv url treeBA [] treeBA_wf, treeBA_not_sorted, same_canon treeBA⟩
+
+/-- **The environment can break the round trip.**  With a variable set to the empty string, the accepted text
+    `%import $(E)` records the import `''`; `str()` prints `%import`, which the loader refuses
+    (`missing argument to %import directive`).  Hence the hypothesis `EnvClean` in `C17_loaded_is_wf`. -/
+theorem C17_env_counterexample (url : Option Str) :
+    slLoad envEmpty url ["%import $(E)".toList] = .ok (.mk [] none [] [], [[]]) ∧
+    ∀ getenv, slLoad getenv url (linesOf (slStr (.mk [] none [] []) [[]])) = .error (synErr url 1 "missing argument") :=
+  ⟨load_importE url, fun getenv => reload_importE getenv url⟩
+
+/-- the same environment changes a value silently: the accepted text `k $(E) x` gives `k` the value `' x'`
+    (the empty replacement leaves the blank in front); `str()` prints `k  x`, which loads — with the value `'x'` -/
+theorem C17_env_value_counterexample (url : Option Str) :
+    slLoad envEmpty url ["k $(E) x".toList] = .ok (treeVal, []) ∧
+    (∀ getenv, slLoad getenv url (linesOf (slStr treeVal [])) = .ok (treeVal', [])) ∧ treeVal' ≠ treeVal :=
+  ⟨load_valE url, fun getenv => reload_valE getenv url, treeVal_ne⟩
 
 end ZCV.Props.C17
